@@ -15,3 +15,4 @@ CONSTANTS
   SnapshotSerialisesAllTypes = TRUE
 INVARIANTS TypeOK StateMachineCorrect Durability SnapshotNeverKills AckedStaysDurable
 PROPERTY AckAfterDurable
+ACTION_CONSTRAINT POR
